@@ -18,6 +18,22 @@ CHECKS = {
    technique="bounded exhaustive enumeration of ordered type pairs x all pairs of values of the source type, on the real into_data_type / as_data_type",
    text="All ordered pairs (A,B) of an enumerated universe of data types (21 variants, depth <= 2, integers around 2^53 and at the i64 extremes, numeric value sets rendered to text) x all values of A from a value universe and all pairs of them: a convertible type converts every value into the converted type, distinct values stay distinct, same-shape reverse conversions return the original, lossy conversions (non-integral float to integer, out-of-range integer to boolean) are refused.",
    note="Trusted: reference membership. Wrapping conversions into `any`-typed containers are excluded from the round-trip clause (no inverse exists)."),
+ "C08": dict(level="translation_validation", design="2/C08",
+   technique="translation validation over an exhaustively enumerated program space: every E-sql query x every database instance of a tiny world, original vs rendered SQL executed on the same in-process SQLite",
+   text="Every query of a deterministic enumeration of the supported SQL fragment (projections, scalar/aggregate mixes, GROUP BY on columns/aliases/expressions, HAVING, DISTINCT, CTEs, derived tables, joins of all kinds with ON/USING/NATURAL and chains, set operations, ORDER BY/LIMIT/OFFSET, quoted identifiers and literals) is compiled by the real parser/IR/renderer and both texts are executed on every database instance of the tables it reads (<= 3-4 rows in total, NULLs, duplicate and unmatched keys): equal multisets, equal sequences under a total ORDER BY, equal column count and SQL-defined names.",
+   note="Trusted: SQLite 3.40 for the shared PostgreSQL/SQLite subset and a self-tested UDF shim (DQS off). Both texts run on the same engine, so dialect differences cancel; SELECT * over USING/NATURAL joins is aligned by name (SQLite's column order differs from the standard)."),
+ "C07": dict(level="exploration", design="2/C07",
+   technique="bounded exhaustive enumeration: every E-sql query x every database instance of the tables it reads, real compiler vs rows executed by in-process SQLite",
+   text="Every query of the E-sql enumeration is compiled by the real parser/IR; for every database instance of the tables it reads (all multisets of <= 3-4 rows in total over 2-3-value column domains with NULLs and range boundaries, unique columns honoured; tables declared with interval sizes and again with the exact instance sizes) the original query is executed on SQLite and every returned cell must be a reference member of the declared column type (NULL iff optional) and the row count must lie in the declared size.",
+   note="Trusted: SQLite 3.40 + self-tested shim; reference membership. Values outside the column domains and queries outside E-sql are not explored."),
+ "C14": dict(level="exploration", design="2/C14",
+   technique="bounded exhaustive enumeration: E-sql queries (incl. every function listed as a bijection applied to unique columns, group-by keys, joins on unique / non-unique keys, set operations) x all database instances honouring the base constraints",
+   text="For every compiled E-sql query and every database instance honouring the declared UNIQUE columns, each output field the relation flags UNIQUE / PRIMARY KEY must hold pairwise distinct non-null values in the rows SQLite returns for the original query.",
+   note="Trusted: SQLite 3.40 + shim. Only the uniqueness flags the compiler emits are checked (137k flagged columns in the quick tier)."),
+ "C15": dict(level="model_checking", design="2/C15",
+   technique="explicit-state BFS (stateright) over insert histories of the real Hierarchy with all lookups compared to a literal reference in every state; exhaustive list of name-clash queries judged by SQLite's ambiguity verdict",
+   text="(a) stateright BFS over all histories of with / extend / from / prepend / collect on the real Hierarchy<u8>, over all paths of length <= 3 on a two-letter alphabet with <= 3 (thorough 4) entries; in every reachable state all 31 lookup paths of length <= 4 through get, get_key_value and Index (panic <=> nothing) must agree with a reference that spells the rule of the property out literally. (b) every query of a list of name clashes (same column in two joined relations in all join kinds and clause positions, self joins, three-way clashes, aliases and CTEs shadowing tables): when SQLite reports an ambiguous column the compiler must not return a relation (an error, or a panic which is handed to C18); when both accept, the results agree on every small database.",
+   note="Trusted: the 20-line reference lookup; SQLite's name resolution as the ambiguity oracle (it agrees with PostgreSQL on these queries)."),
 }
 NOT_YET = {}
 def main():
@@ -49,6 +65,7 @@ def main():
             "enable": "the harness depends on qrlew by path with features [\"sqlite\", \"qrlew_verif\"] (harness/Cargo.toml); cargo build --features qrlew_verif in /repo",
             "baseline_off_cmd": "/verif/baseline_off.sh",
             "source_commits": ["80602cb"],
+            "fix_commits": ["11afd7c", "f09b54c", "2b20237", "0e4f4eb"],
             "add_only": True,
         },
         "engines": [{"name": "qv", "path": "/verif/harness", "serves_properties": sorted(CHECKS), "kind_free_text": "Rust binary linking the real qrlew crate from /repo's working tree; deterministic exhaustive enumerators, explicit-state search (stateright), in-process SQLite as independent SQL semantics"}],
